@@ -32,6 +32,12 @@ func specMint() {
 		doc:    "x/mint/keeper/keeper.go `getProportions` (the amount of the coin; error = none)"})
 	pinOps("Mint", keeper, "Keeper.DistributeMintedCoin", "distributeToModule", "distributeDeveloperRewards", "FundCommunityPool")
 	pinOps("Mint", keeper, "Keeper.distributeDeveloperRewards", "BurnCoins", "AddSupplyOffset", "FundCommunityPool", "SendCoinsFromModuleToAccount")
+	// x/pool-incentives: the distribution table the mint hook allocates over (Model/PoolIncentives.lean)
+	const pik = "x/pool-incentives/keeper"
+	pinOps("Mint", pik, "Keeper.AllocateAsset", "GetBalance", "GetDistrInfo", "FundCommunityPoolFromModule", "AddToGaugeRewards", "ToLegacyDec", "TruncateInt", "IsPositive", "IsZero")
+	pinOps("Mint", pik, "Keeper.UpdateDistrRecords", "GetDistrInfo", "validateRecords", "SetDistrInfo", "Equal", "IsZero", "delete", "SliceStable")
+	pinOps("Mint", pik, "Keeper.ReplaceDistrRecords", "GetDistrInfo", "validateRecords", "SetDistrInfo")
+	pinOps("Mint", pik, "Keeper.validateRecords", "GetGaugeByID")
 }
 
 func decParams(names ...string) []xparam {
